@@ -90,6 +90,12 @@ def make_families():
 
 
 FAMILIES = make_families()
+# initial grids whose neighbouring roots differ strongly in width (ratio 4 and 5; the conformity closure then bisects a root that is
+# NARROWER than the element that asked for it): used by the grading histories only
+GRADING_FAMILIES = dict(FAMILIES)
+GRADING_FAMILIES["ratio4-glued"] = Init("ratio4-glued", [0, 1], [0, 1, 5], True)
+GRADING_FAMILIES["ratio5-open"] = Init("ratio5-open", [0, 1], [0, 1, 6], False)
+GRADING_FAMILIES["ratio4-two-slabs"] = Init("ratio4-two-slabs", [0, F(1, 2), 1], [0, 4, 5], True)
 SMALL_FAMILIES = ("1x1-open", "1x1-glued", "1x2-open", "1x2-glued", "2x1-open", "2x1-glued")
 
 
@@ -745,7 +751,12 @@ def _expand_chunk(task):
             # marking-driven bisection as a terminal operation (C02 quantifies over it): indicator families with ties / zeros
             nl = len(view0.leaves)
             if nl <= DORFLER_TERMINAL_MAX_LEAVES:
-                cand += [("dorfler", "isotropic", tuple(1 for _ in range(nl)), 0.5),
+                rs = sorted(view0.leaves)
+                inv_area = tuple(float(1 / ((r[1] - r[0]) * (r[3] - r[2]))) for r in rs)      # the finer the leaf, the larger its indicator
+                cand += [("dorfler", "isotropic", inv_area, 0.9),
+                         ("dorfler", "isotropic", tuple(nl - i for i in range(nl)), 0.9),
+                         ("dorfler", "isotropic", tuple(i + 1 for i in range(nl)), 0.9),
+                         ("dorfler", "isotropic", tuple(1 for _ in range(nl)), 0.5),
                          ("dorfler", "anisotropic", tuple((1, 1) for _ in range(nl)), 0.5),
                          ("dorfler", "anisotropic", tuple((3, 0) if i == 0 else (0, 0) for i in range(nl)), 0.5),
                          ("dorfler", "anisotropic", tuple((i % 3, (i + 1) % 2) for i in range(nl)), 0.7)]
@@ -1358,8 +1369,8 @@ def _grading_task(task):
         out["keys"].add(hash(frozenset(elem_rect(e) for e in mesh.leaf_elements)))
         out["samples"].append(dict(curve=curve, bias=bias, steps=length, leaves=len(mesh.leaf_elements)))
     else:
-        names = list(FAMILIES)
-        init = FAMILIES[names[(i // 3) % len(names)]]
+        names = list(GRADING_FAMILIES)
+        init = GRADING_FAMILIES[names[(i // 3) % len(names)]]
         run = Run(init)
         for _ in range(nsteps):
             rects = sorted(run.view.leaves)
@@ -1429,7 +1440,7 @@ def _run_structure(chk, prop, tier, seed, pool, log):
         fd.mark_checked(fam, own + (compound_nr if prop == "C02" else ()), r["evals"])
         chk.add_bounded("{}/bounded/bfs/{}".format(prop, fam), r["evals"], r["nontrivial"],
                         "all sequences of refine_axis(leaf, ax) up to depth {} from initial mesh {} (time {} space {}{}); "
-                        "plus refine(leaf), uniform_refine, uniform_refine_space and four Doerfler steps (tied / zero / patterned indicators, states with <= 6 leaves) as terminal operations on every "
+                        "plus refine(leaf), uniform_refine, uniform_refine_space and seven Doerfler steps (tied / zero / monotone / inverse-area indicators, states with <= 6 leaves) as terminal operations on every "
                         "state".format(r["depth"], fam, [str(t) for t in FAMILIES[fam].time],
                                        [str(x) for x in FAMILIES[fam].space], " glued" if FAMILIES[fam].glued else ""),
                         "breadth-first, every leaf x both axes, states de-duplicated by exact leaf set; one evaluation = "
